@@ -43,8 +43,16 @@ func TestC06(t *testing.T) {
 			switch f[0] {
 			case "read":
 				if !stopped && len(f) > 2 {
+					runnable := map[string]bool{}
+					for _, m := range c07Members(r.readText(f[1])) {
+						if m.Method == "m" && validMember(r.readText(f[1]), m.Tag) { // unknown methods and invalid members are answered without running
+							runnable[m.Tag] = true
+						}
+					}
 					for _, tag := range strings.Split(f[2], ",") {
-						arrived[tag] = true
+						if runnable[tag] {
+							arrived[tag] = true
+						}
 					}
 				}
 				if strings.Contains(r.readText(f[1]), "rpc.serverInfo") {
@@ -156,6 +164,10 @@ func TestC06(t *testing.T) {
 			// failing notifications must give their slots back
 			{Concurrency: 2, Ops: []envOp{{Kind: "send", Arg: reqNote("n1", "err")}, {Kind: "send", Arg: reqNote("n2", "err")}, {Kind: "send", Arg: reqNote("n3", "errcode:-32600")}, {Kind: "send", Arg: reqCall(1, "c4", "ok")}}},
 			{Concurrency: 1, Ops: []envOp{{Kind: "send", Arg: reqBatch(reqNote("n1", "err"), reqCall(1, "c2", "err"), reqCall(2, "c3", "ok"))}, {Kind: "send", Arg: reqCall(3, "c4", "ok")}}},
+			// a member that failed validation does not use up the batch's dispatch budget: the runnable
+			// members after it are all started (one of them held, so that the other needs its own slot)
+			{Concurrency: 2, Ops: []envOp{{Kind: "send", Arg: reqBatch(`{"jsonrpc":"2.0","id":1,"method":"nope","params":["c1","ok"]}`, reqCall(2, "Hc2", "ok"), reqCall(3, "c3", "ok"))}}},
+			{Concurrency: 3, Ops: []envOp{{Kind: "send", Arg: reqBatch(`{"jsonrpc":"2.0","id":1,"params":["c1","ok"]}`, `{"jsonrpc":"1.0","id":9,"method":"m","params":["c9","ok"]}`, reqCall(2, "Hc2", "ok"), reqNote("n3", "ok"), reqCall(4, "c4", "ok"))}}},
 			// a serial server stays serial when pushes are enabled, also while a handler awaits a callback
 			{Concurrency: 1, AllowPush: true, Ops: []envOp{{Kind: "send", Arg: reqCall(1, "Hc1", "ok")}, {Kind: "send", Arg: reqCall(2, "c2", "ok")}, {Kind: "send", Arg: reqBatch(reqCall(3, "c3", "ok"), reqCall(4, "c4", "ok"))}}},
 			{Concurrency: 1, AllowPush: true, Ops: []envOp{{Kind: "send", Arg: reqCall(1, "c1", "cb:k1")}, {Kind: "send", Arg: reqCall(2, "c2", "ok")}, {Kind: "cbreply", Arg: "k1"}}},
